@@ -207,6 +207,21 @@ def explore(task):
         ex = Explorer(src, alpha, monitors=[], depth=depth, max_states=30000)
         ex.run()
         return v2x.result_of(ex, {"program": name})
+    if name.startswith("c04:"):
+        from vf.props import c04
+        src = c04.REUSED_STATEMENT[name[4:]][0]
+
+        def alpha4(state, node):
+            if node.depth == 0:
+                return [("start_main",)]
+            evs = [("ext", "X", {})]
+            for k in range(min(2, len(v2x.pending_actions(state)))):
+                evs += [("act", k, "Finished", {}), ("act", k, "Started", {})]
+            return evs
+
+        ex = Explorer(src, alpha4, monitors=[], depth=depth, max_states=30000)
+        ex.run()
+        return v2x.result_of(ex, {"program": name})
     main, libs = MAINS[name]
     ex = Explorer(main, alphabet_for(name), monitors=[zoo_monitor] if name == "notation-zoo" else [], depth=depth, extra_sources=[lib(l) for l in libs], max_states=30000)
     ex.run()
@@ -219,6 +234,9 @@ def tasks(tier):
     for n in MAINS:
         q, t = heavy.get(n, (8, 11))
         out.append((n, q if tier == "quick" else t))
+    from vf.props import c04
+    for n in c04.REUSED_STATEMENT:
+        out.append(("c04:" + n, 5 if tier == "quick" else 7))
     from vf.props import c11
     for n in list(c11.REF_PROGRAMS) + list(c11.ZOO):
         out.append(("c11:" + n, 5 if tier == "quick" else 7))
